@@ -101,15 +101,15 @@ def main():
     sync = num(m.group(1)) if m else die("SYNC_CODE")
     m = re.search(r"const MAX_FRAME_NUMBER: u64 = ([^;]+);", src)
     maxfn = num(m.group(1)) if m else die("MAX_FRAME_NUMBER")
-    m = re.search(r"pub const FIXED_COEFFS: \[&\[i64\]; 5\] = \[(.*?)\];", src)
+    m = re.search(r"pub const FIXED_COEFFS:\s*\[&\[i64\];\s*5\]\s*=\s*\[(.*?)\];", src, re.S)
     if not m:
         die("FIXED_COEFFS")
-    coeffs = [[int(x) for x in re.findall(r"-?\d+", grp)] for grp in re.findall(r"&\[(.*?)\]", m.group(1))]
+    coeffs = [[int(x) for x in re.findall(r"-?\d+", grp)] for grp in re.findall(r"&\[(.*?)\]", m.group(1), re.S)]
     b = block(src, "impl FromBitStream for SubframeHeaderType")
     T = r"(\d\w*)"
-    m = re.search(T + r" => Ok\(Self::Constant\),\s*" + T + r" => Ok\(Self::Verbatim\),\s*v @ " + T + r"\.\.=" + T +
-                  r" => Ok\(Self::Fixed \{\s*order: v - " + T + r",\s*\}\),\s*v @ " + T + r"\.\.=" + T +
-                  r" => Ok\(Self::Lpc \{\s*order: NonZero::new\(v - " + T + r"\)", b)
+    m = re.search(T + r"\s*=>\s*Ok\(Self::Constant\),\s*" + T + r"\s*=>\s*Ok\(Self::Verbatim\),\s*v @ " + T + r"\s*\.\.=\s*" + T +
+                  r"\s*=>\s*Ok\(Self::Fixed\s*\{\s*order: v - " + T + r",?\s*\}\),\s*v @ " + T + r"\s*\.\.=\s*" + T +
+                  r"\s*=>\s*Ok\(Self::Lpc\s*\{\s*order: NonZero::new\(v - " + T + r"\)", b)
     if not m or num(m.group(1)) != 0 or num(m.group(2)) != 1:
         die("SubframeHeaderType::from_reader")
     fixed_lo, fixed_hi, fixed_base, lpc_lo, lpc_hi, lpc_base = [num(x) for x in m.groups()[2:]]
